@@ -1,5 +1,5 @@
 // ASSUMED contracts of the owning_iovec dependency (producer-side content of C03/C04; not proved
-// here -- see DESIGN.md section 7) and of find_stuff_sequence (bounded Kani check, see kc/hcobs.rs).
+// here -- see DESIGN.md section 7).  find_stuff_sequence is no longer assumed: the real function is in the unit (rule N16).
 #[verifier::external_body]
 struct OwningIovec<'a> { _p: std::marker::PhantomData<&'a u8> }
 #[verifier::external_body]
@@ -42,11 +42,6 @@ impl<'this> OwningIovec<'this> {
 spec fn splice(b: Seq<u8>, at: int, src: Seq<u8>) -> Seq<u8> {
     b.take(at) + src + b.skip(at + src.len())
 }
-
-#[verifier::external_body]
-fn find_stuff_sequence(bytes: &[u8]) -> (r: Option<usize>)
-    ensures match r { Some(i) => first_stuff(bytes@, i as int), None => no_stuff(bytes@) }
-{ unimplemented!() }
 
 // N3 helpers: strict (non-short-circuit) boolean operators as verified functions.
 fn strict_or(a: bool, b: bool) -> (r: bool) ensures r == (a || b) { a || b }
